@@ -97,3 +97,14 @@ func verifRequestOf(method string, query map[string]string, body any) *http.Requ
 	}
 	return verifRequest(method, query, body)
 }
+
+// model of strconv.ParseBool (symbolic execution only): the documented table.
+func verifStub_strconv_ParseBool(str string) (bool, error) {
+	switch str {
+	case "1", "t", "T", "TRUE", "true", "True":
+		return true, nil
+	case "0", "f", "F", "FALSE", "false", "False":
+		return false, nil
+	}
+	return false, errors.New("strconv.ParseBool: invalid syntax")
+}
